@@ -59,6 +59,9 @@ CHECKS.update({
  "C06": ("fault_enumeration","online invariant monitor on an instrumented storage backend (open/use/close events, scripted reload faults) driven by exhaustive operation sequences up to a depth bound plus random longer ones; real backends in a child process where a crash is the verdict",
          "An instrumented DBI is wrapped with the verif constructors into db.DB and FBDNSDB and driven by ALL sequences over {acquire, use/release oldest|newest reader, 8 scripted reload outcomes incl. validation failures on new/same backend and reloads that outlive the timeout, unblock, shutdown} up to depth 4 (thorough 5), then by random longer sequences; every history is completed and the per-instance invariants (no use after close, no close during a call, close count, pinned/served stay open, everything closed exactly once) are checked. Real CDB/RocksDB backends run random histories in a child process.",
          "The instrumented backend models a slow same-backend reload as a call in progress on the old backend (as a RocksDB catch-up is). Depth-bounded; timing of the 1 ms reload timeout decides which branch of db.Reload a blocked reload takes.","4/C06"),
+ "C14": ("exploration","Go race detector over randomised serve/reload/stats/watcher/shutdown stress in child processes, reports read from log files and deduplicated; crash and bounded-progress monitors",
+         "Race-detector build, one child process per (backend, repeat): 16 query workers with the cache on, a reloader mixing full, partial (after a real ApplyDiff / file replacement) and failing reloads, a ReportBackendStats ticker, the fsnotify watcher with a ReloadChan consumer, and a shutdown performed while queries are parked after reader acquisition; zero race reports, no panic/fatal, all workers finish.",
+         "Only schedules the stress produced are covered (the evidence counts queries that overlapped a reload). librocksdb is uninstrumented: races inside it are invisible. FBDNSDB.ValidateDbKey is a start-up helper and not part of the workload.","4/C14"),
 })
 BUILT = set(CHECKS)
 ALL = [json.loads(l)["id"] for l in open("properties.jsonl")]
